@@ -971,6 +971,86 @@ fn extra_timing_cases() -> Vec<(String, Option<(String, String)>)> {
     })
 }
 
+//
+// The connect phase: the peer never answers the SYN. The overall timeout T bounds this phase like
+// every other one, whatever the (larger) connect timeout, for an address literal, a name with one
+// address, a name with several, a proxy, and the target of a redirect.
+//
+pub const CONNECT_STALL_KINDS: [&str; 5] = ["ip-literal", "one-address-name", "two-address-name", "proxy", "redirect-target"];
+
+fn connect_stall_cases() -> Vec<(String, Option<(String, String)>, bool)> {
+    let run = |kind: &'static str| -> (String, Option<(String, String)>, bool) {
+        let name = format!("connect-stall:{kind}");
+        let hole = match crate::c17::black_hole(false) {
+            Some(h) => h,
+            None => return (name, None, false),
+        };
+        let hole2 = if kind == "two-address-name" {
+            match crate::c17::black_hole(false) {
+                Some(h) => Some(h),
+                None => return (name, None, false),
+            }
+        } else {
+            None
+        };
+        const T_MS: u64 = 700;
+        let base = |url: &str| attohttpc::get(url).timeout(Duration::from_millis(T_MS)).connect_timeout(Duration::from_secs(5)).read_timeout(Duration::from_secs(5));
+        let mut server = None;
+        let rb = match kind {
+            "ip-literal" => base(&format!("http://{}/x", hole.addr)),
+            "one-address-name" => {
+                attohttpc::verif::set_resolution("hole.test", Some(vec![hole.addr]));
+                base("http://hole.test:7777/x")
+            }
+            "two-address-name" => {
+                attohttpc::verif::set_resolution("hole.test", Some(vec![hole.addr, hole2.as_ref().unwrap().addr]));
+                base("http://hole.test:7777/x")
+            }
+            "proxy" => {
+                attohttpc::verif::set_resolution("holeproxy.test", Some(vec![hole.addr]));
+                let u = url::Url::parse("http://holeproxy.test:3128").unwrap();
+                base("http://origin.test/x").proxy_settings(attohttpc::ProxySettings::builder().http_proxy(u).build())
+            }
+            _ => {
+                // a fast first hop that redirects to the unresponsive address
+                let listener = TcpListener::bind("127.0.0.1:0").unwrap();
+                let port = listener.local_addr().unwrap().port();
+                let target = format!("http://{}/next", hole.addr);
+                server = Some(std::thread::spawn(move || {
+                    if let Ok((mut s, _)) = listener.accept() {
+                        let mut buf = [0u8; 2048];
+                        let _ = s.read(&mut buf);
+                        let _ = s.write_all(format!("HTTP/1.1 307 Temporary Redirect\r\nLocation: {target}\r\nContent-Length: 0\r\n\r\n").as_bytes());
+                    }
+                }));
+                base(&format!("http://127.0.0.1:{port}/x"))
+            }
+        };
+        let rb = if kind == "proxy" { rb } else { rb.proxy_settings(attohttpc::ProxySettings::builder().build()) };
+        let t0 = Instant::now();
+        let res = guarded(|| rb.send().and_then(|r| r.bytes()));
+        let el = t0.elapsed();
+        attohttpc::verif::set_resolution("hole.test", None);
+        attohttpc::verif::set_resolution("holeproxy.test", None);
+        if let Some(h) = server {
+            let _ = h.join();
+        }
+        let shown: String = format!("{res:?}").chars().take(120).collect();
+        let viol = if el > Duration::from_millis(T_MS + 900) {
+            Some(("phase-not-bounded:connect".to_string(), format!("{kind}: the address never answers the connection attempt; T = {T_MS} ms, connect timeout 5 s: send() returned {shown} after {el:?}")))
+        } else if !matches!(res, Ok(Err(_))) {
+            Some(("phase-not-bounded:connect".to_string(), format!("{kind}: send() = {shown} against an address that never answers")))
+        } else {
+            None
+        };
+        (name, viol, true)
+    };
+    std::thread::scope(|sc| {
+        let hs: Vec<_> = CONNECT_STALL_KINDS.iter().map(|k| sc.spawn(move || run(k))).collect();
+        hs.into_iter().map(|h| h.join().unwrap()).collect()
+    })
+}
+
 pub fn c13(ctx: &Ctx) -> Report {
     // Part B first (free running, real clock), all phases in parallel
     let ps = phases();
@@ -986,7 +1066,15 @@ pub fn c13(ctx: &Ctx) -> Report {
             ctx.violation(format!("C13:{sig}"), what.clone(), json!({"engine": "c13", "phase": p}), 0);
         }
     }
-    let extras = extra_timing_cases();
+    let mut extras = extra_timing_cases();
+    let mut connect_stall_skipped = 0u64;
+    for (name, viol, ran) in connect_stall_cases() {
+        if ran {
+            extras.push((name, viol));
+        } else {
+            connect_stall_skipped += 1;
+        }
+    }
     let n_extras = extras.len() as u64;
     for (name, viol) in extras {
         ctx.outcome(format!("extra:{}", if viol.is_none() { "ok" } else { "violation" }));
@@ -1064,11 +1152,12 @@ pub fn c13(ctx: &Ctx) -> Report {
     rep.set("executions_retried_for_timing", retried);
     rep.set("phases_swept", ps.len() as u64 + rustls_phases + n_extras);
     rep.set("phases_swept_rustls_backend", rustls_phases);
+    rep.set("connect_stall_cases_skipped_no_black_hole", connect_stall_skipped);
     rep.set("slowest_phase_ms", slowest.as_millis() as u64);
     rep.set("exhaustive", true);
     rep.set(
         "rule",
-        "Part A: for each scenario (framing x caller script x deadline kind x how much the peer sends and whether it closes) EVERY schedule with at most the stated number of deviations from the canonical order is executed on the real code over a real loopback socket: moves = release the caller thread / the timeout thread at one of the library's schedule points, the peer sends the next segment, the peer closes, the deadline passes; a thread is only released into a blocking call that can complete (reads: data, peer close or local shutdown; the timeout thread's wait: a ping, the sender gone, the deadline). states/transitions = decision points, distinct_nontrivial = distinct vectors of caller-visible results (+ phases). Part B: every protocol phase as stall point x {silent, 1 byte / 50 ms} with T = 600 ms, and the read timeout alone (300 ms), free running with the real clock, bound T + 2 s.",
+        "Part A: for each scenario (framing x caller script x deadline kind x how much the peer sends and whether it closes) EVERY schedule with at most the stated number of deviations from the canonical order is executed on the real code over a real loopback socket: moves = release the caller thread / the timeout thread at one of the library's schedule points, the peer sends the next segment, the peer closes, the deadline passes; a thread is only released into a blocking call that can complete (reads: data, peer close or local shutdown; the timeout thread's wait: a ping, the sender gone, the deadline). states/transitions = decision points, distinct_nontrivial = distinct vectors of caller-visible results (+ phases). Part B: every protocol phase as stall point x {silent, 1 byte / 50 ms} with T = 600 ms, and the read timeout alone (300 ms), free running with the real clock, bound T + 2 s; the connect phase (an address that never answers the SYN: a listener with a full backlog) for an address literal, a name with one address, a name with two, a proxy and a redirect target, T = 700 ms against a 5 s connect timeout, bound T + 0.9 s.",
     );
     rep.assume("real time is not virtualised: a far deadline is 60 s away, an expiring one (120 ms) passes when the explorer sleeps past it, and an execution in which real time gets within 40 ms of it earlier is discarded and retried (machinery, never a verdict)");
     rep.assume("server segments are smaller than every client read buffer, so a completed client read drains what the server sent");
@@ -1084,7 +1173,8 @@ pub fn replay(v: &serde_json::Value) -> i32 {
         return if text.contains("\"t\":\"v\"") { 1 } else { 0 };
     }
     if !v["case"]["extra"].is_null() {
-        let r = extra_timing_cases();
+        let mut r = extra_timing_cases();
+        r.extend(connect_stall_cases().into_iter().map(|(n, v, _)| (n, v)));
         println!("{r:?}");
         return if r.iter().any(|(_, v)| v.is_some()) { 1 } else { 0 };
     }
